@@ -342,6 +342,13 @@ func genConfig(r rng, seed uint64, id string, merge bool) *sdl.Program {
 			}
 			t.Config = append(t.Config, cf)
 		}
+		if !merge && r.p(0.15) {
+			// two absent keys in one holder: the first falls back to its default, the second has
+			// none (state must not travel from one placeholder to the next)
+			d := &sdl.Conf{Field: fmt.Sprintf("C%d", nf), Menu: "valueDef", Keys: []string{"gone.a"}, Default: fmt.Sprint(r.n(1, 9)), GoType: "int", Optional: r.p(0.5)}
+			u := &sdl.Conf{Field: fmt.Sprintf("C%d", nf+1), Menu: pick(r, []string{"value", "prop"}), Keys: []string{"gone.b"}, GoType: pick(r, []string{"int", "int", "ints", "dur"}), Optional: r.p(0.6)}
+			t.Config = append(t.Config, d, u)
+		}
 		if r.p(0.2) {
 			// a prefix-bound struct declared as a tagged anonymous field
 			t.Config = append(t.Config, &sdl.Conf{Field: "CfgAB", Menu: "prefixStruct", Keys: []string{"sim.sub"}, GoType: "struct",
